@@ -265,8 +265,10 @@ func (r *rewriter) stmt(s ast.Stmt) ast.Stmt {
 				} else {
 					cases = append(cases, call(sel("vchan", "RecvFrom"), r.expr(x)))
 				}
+			case *ast.SendStmt:
+				cases = append(cases, call(sel("vchan", "SendTo"), r.expr(comm.Chan), r.expr(comm.Value)))
 			default:
-				fail("select case %s (only value-less receives and default are modelled)", exprString(r.fset, cc.Comm))
+				fail("select case %s (only value-less receives, sends and default are modelled)", exprString(r.fset, cc.Comm))
 			}
 			cc.Body = r.stmts(cc.Body)
 			clauses = append(clauses, &ast.CaseClause{List: []ast.Expr{&ast.BasicLit{Kind: token.INT, Value: strconv.Itoa(i)}}, Body: cc.Body})
